@@ -132,7 +132,7 @@ class Schema:
 
     def post_read(self, obj, attr, sv):
         if obj.cls == "LazyIntervalTree" and attr == "_value_collection" and obj.x in self.LIT:
-            return SV(sv.k, sv.t, cls=self.LIT[obj.x][1], x=sv.x, wb=sv.wb)
+            return SV(sv.k, sv.t, cls=self.LIT[obj.x][1], x=obj.x, wb=sv.wb)
         if attr == "_data" and isinstance(obj.x, str) and sv.k in ("set", "list"):
             return SV(sv.k, sv.t, cls=obj.x, x=sv.x, wb=sv.wb)      # element class of an owning collection
         if obj.cls == "LazyIntervalTree" and attr == "_interval_index":
